@@ -9,7 +9,7 @@ from vlib import factbase as fb
 from vlib import q
 from . import arms as A
 from . import c01
-from .common import pname, ctx, loc, self_field
+from .common import pname, ctx, loc, self_field, str_template, value_leaves
 
 
 def _kind_of_name(s):
@@ -365,6 +365,12 @@ def _line_emissions(g):
                             bad.append((st, "template without a blank"))
                     else:
                         lits = _str_lits(prev["args"][0]) if prev is not None else None
+                        if (lits is None or not all(l.endswith(" ") for l in lits)) and prev is not None:
+                            # the same through whatever builds the piece: every value it can take is a string that ends in a literal blank
+                            # (`push_str(if n == 0 { &first_prefix } else { &rest_prefix })` with both built by `format!("{} ", ..)`)
+                            tl = [str_template(c, lf) for lf in value_leaves(c, prev["args"][0])]
+                            if tl and all(t_ and isinstance(t_[-1], str) and t_[-1].endswith(" ") for t_ in tl):
+                                lits = [" "]
                         if lits is None or not all(l.endswith(" ") for l in lits):
                             bad.append((st, "the piece appended before the line is %s" % ("`%s`" % fb.show(prev["args"][0])[:40] if prev is not None else "missing")))
                 prev = st
@@ -381,7 +387,7 @@ def rule_r4(facts, rep, rid="C07-R4"):
     c = ctx(f)
     reps = [x for x in fb.walk(f.body) if x.get("k") == "mcall" and x["name"] == "repeat"]
     key = f.def_ + "|pad-from-prefix"
-    if reps and any(("call", "alloc::string::String::len") in c.vprov(r["args"][0]) or "prefix.len()" in fb.show(r["args"][0]) for r in reps):
+    if reps and any(any(a[0] == "call" and a[1] and a[1].endswith(("String::len", "str::len")) for a in c.vprov(r["args"][0])) or "prefix.len()" in fb.show(r["args"][0]) for r in reps):
         rep.ok(rid, key, "continuation pad = \" \".repeat(prefix.len())", loc(f, reps[0]))
     else:
         rep.violation(rid, key, "the continuation indent of ordered-list items is not computed from the printed marker's width: for some item numbers "
